@@ -5,6 +5,17 @@
 (*   iteration, final vector), the returned coordinates (1e-6 units), exceedance counts   *)
 (*   re-measured by the harness on the sample at every returned point and at every ray's  *)
 (*   final vector, the number of 'could not achieve the required precision' warnings.     *)
+(* "Exceeding" is STRICT: an observation whose coordinate EQUALS the point's coordinate    *)
+(* does not exceed it.  Every count the harness supplies (ptcount, recount) is             *)
+(* #{i : x_i > vx /\ y_i > vy} (AND) or #{i : x_i > vx \/ y_i > vy} (OR) on the sample as   *)
+(* the caller handed it over (double precision); ptties = how many more observations a     *)
+(* count with >= would include (exact zeros of a zero-inflated variable at the theta = 0   *)
+(* ray, lattice values of a rounded sample) - reported, not judged.                        *)
+(* alpha = a / b.  An alpha handed over as np.float32 (dyadic = TRUE) is another real       *)
+(* number, a / b (1 + d), |d| <= 6e-8; the harness keeps such a record only if the          *)
+(* tolerance test of every judged count has the same outcome for both numbers in exact      *)
+(* arithmetic (else tie = TRUE), and supplies nref = floor(100 / float(alpha)) evaluated    *)
+(* with fractions.Fraction (100 * 2^37 does not fit 32 bit).                                *)
 (* The loop events of every ray must be a behaviour of AndOrSearch!Iterate (branch taken, *)
 (* continuation / exit decisions, iteration cap); the returned points must be the rays'   *)
 (* final vectors (OR: exactly those inside the 1.1*max range, in order), closed as        *)
@@ -109,13 +120,18 @@ ApiClauses(r) ==
       \o (IF Cardinality({j \in 1..Min2(ns, Len(r.ptcount)) : ~InTol(r.ptcount[j], r.n, r.a, r.b, r.en, r.ed)}) > r.nwarn
           THEN <<"WithinTolerance">> ELSE <<>>)
 
+(* when no sample is supplied and no n is given, n = int(100 / alpha) points are drawn *)
+NRef(r) == IF r.dyadic THEN r.nref ELSE (100 * r.b) \div r.a
+DefaultN(r) == IF r.defaultn /\ r.n # NRef(r) THEN <<"DefaultSampleSize">> ELSE <<>>
+
 Verdict(r) ==
     IF r.exc # "" THEN
          (IF r.mode = "or" /\ r.exc = "IndexError" /\ r.hooked /\ Len(KeptRays(r)) = 0
           THEN AllRays(r, 1) ELSE <<"UnexpectedException">>)
-    ELSE IF r.tie THEN <<>>       \* range tie at 1e-6 resolution: not judged (counted as trivial)
-    ELSE IF ~r.hooked THEN ApiClauses(r)
-    ELSE AllRays(r, 1) \o CoordClauses(r) \o ApiClauses(r)
+    ELSE DefaultN(r) \o
+         (IF r.tie THEN <<>>       \* range tie at 1e-6 resolution: not judged (counted as trivial)
+          ELSE IF ~r.hooked THEN ApiClauses(r)
+          ELSE AllRays(r, 1) \o CoordClauses(r) \o ApiClauses(r))
 
 Init == l = 1
 Next == /\ l <= Len(TraceLog)
